@@ -36,7 +36,8 @@ pub enum COp {
     /// `-rel(X, Y) <- rel(X, Y), <col var> <cmp> <k>`
     CondDelete { kg: String, rel: String, col: usize, cmp: String, k: i64 },
     /// `-rel(X, Y), +rel(X, Z) <- rel(X, Y), <col var> <cmp> <k>, Z = Y + <add>`
-    Update { kg: String, rel: String, col: usize, cmp: String, k: i64, add: i64 },
+    /// with `set_to`: `-rel(X, Y), +rel(X, <c>) <- rel(X, Y), <col var> <cmp> <k>` (the inserted tuples may all exist already)
+    Update { kg: String, rel: String, col: usize, cmp: String, k: i64, add: i64, #[serde(default)] set_to: Option<i64> },
     // persistence layer alone
     PAppend { shard: String, updates: Vec<(T, u64, i64)> },
     PFlush { shard: String },
@@ -263,7 +264,13 @@ pub fn apply_handler(h: &inputlayer::protocol::handler::Handler, op: &COp) -> Re
             },
             Err(e) => Res::Err(e),
         },
-        COp::Update { kg, rel, col, cmp, k, add } => match run(kg, format!("-{rel}(X, Y), +{rel}(X, Z) <- {rel}(X, Y), {} {cmp} {k}, Z = Y + {add}", var(*col))) {
+        COp::Update { kg, rel, col, cmp, k, add, set_to } => match run(
+            kg,
+            match set_to {
+                Some(c) => format!("-{rel}(X, Y), +{rel}(X, {c}) <- {rel}(X, Y), {} {cmp} {k}", var(*col)),
+                None => format!("-{rel}(X, Y), +{rel}(X, Z) <- {rel}(X, Y), {} {cmp} {k}, Z = Y + {add}", var(*col)),
+            },
+        ) {
             Ok(msgs) => match first_number_after(&msgs, "Update:") {
                 Some(n) => Res::Count(n),
                 None => Res::Err(format!("{msgs:?}")),
@@ -468,7 +475,7 @@ fn model_apply(st: &mut MState, op: &COp) -> Exp {
             }
             Exp::Exact(Res::Count(n))
         }
-        COp::Update { kg, rel, col, cmp, k, add } => {
+        COp::Update { kg, rel, col, cmp, k, add, set_to } => {
             let Some(g) = st.kgs.get_mut(kg) else { return Exp::ErrClass };
             let mut d = 0;
             if let Some(r) = g.get_mut(rel) {
@@ -477,7 +484,7 @@ fn model_apply(st: &mut MState, op: &COp) -> Exp {
                 for t in &matched {
                     let mut nt = t.clone();
                     if let Some(y) = nt.get(1).and_then(int_of) {
-                        nt[1] = crate::values::V::I64(y + add);
+                        nt[1] = crate::values::V::I64(set_to.unwrap_or(y + add));
                     }
                     ins.push(nt);
                 }
